@@ -127,8 +127,10 @@ class Boc:
             result['size_bytes'] = flags_byte % 8
         elif data[:4] == SERIALIZED_BOC_IDX_PREFIX:
             result['hash_crc32'] = 0
+            result['size_bytes'] = data[4]
         elif data[:4] == SERIALIZED_BOC_IDX_CRC32C:
             result['hash_crc32'] = 1
+            result['size_bytes'] = data[4]
         else:
             raise BocError(f'unknown boc prefix: {data[:4]}')
         if data_len - 5 < 1 + 5 * result['size_bytes']:
@@ -144,11 +146,15 @@ class Boc:
         i = end + result['offset_bytes']
         result['tot_cells_size'] = bytes_to_uint(data[end: i])
 
-        if data_len - i < result['roots_num'] * size_bytes:
-            raise Exception("Not enough bytes for encoding root cells hashes")
-        end = i + result['roots_num'] * size_bytes
-        result['root_list'] = [bytes_to_uint(data[j: j + size_bytes]) for j in range(i, end,  size_bytes)]
-        i = end
+        if data[:4] == SERIALIZED_BOC_PREFIX:
+            if data_len - i < result['roots_num'] * size_bytes:
+                raise Exception("Not enough bytes for encoding root cells hashes")
+            end = i + result['roots_num'] * size_bytes
+            result['root_list'] = [bytes_to_uint(data[j: j + size_bytes]) for j in range(i, end,  size_bytes)]
+            i = end
+        else:
+            # serialized_boc_idx / serialized_boc_idx_crc32c have no root list: the root is cell 0
+            result['root_list'] = [0]
         if result['has_idx']:
             if data_len - i < offset_bytes * result['cells_num']:
                 raise BocError("Not enough bytes for index encoding")
